@@ -19,16 +19,29 @@ func randScenario(r *rand.Rand) *Scenario {
 		nf := pick([]string{"true", "false"})
 		add(Item{"notary", "", "", nf})
 		if nf == "true" && k != "audit" && r.Intn(4) > 0 {
-			add(Item{"ballots", "", "", pick([]string{"empty", "stale", "fresh", "mixed"})})
+			add(Item{"ballots", "", "", pick([]string{"empty", "stale", "fresh", "mixed", "many", "manyfresh", "edge20", "edge21"})})
 		}
 	}
 	switch k {
 	case "balance":
-		add(Item{"supply", "", "", strconv.Itoa(1 + r.Intn(1<<30))})
+		// stored sizes: number of accounts (none / a few / the whole universe), lock accounts with any Until/Parent,
+		// balances and supply beyond 64 bits
+		big := []string{"1", "255", "65536", "4294967296", "18446744073709551616", "340282366920938463463374607431768211456"}
+		add(Item{"supply", "", "", pick(big)})
+		share := []int{0, 3, 1}[r.Intn(3)] // none, a third, all
 		for _, a := range uAccounts {
-			if r.Intn(3) > 0 {
-				add(Item{"acc", a, "", strconv.Itoa(r.Intn(1 << 30))})
+			if share == 0 || (share == 3 && r.Intn(3) > 0) {
+				continue
 			}
+			meta := ""
+			if a[0] == 'l' || r.Intn(6) == 0 {
+				meta = pick([]string{"0", "1", "7", "65536", "-1"}) + "~" + pick([]string{"u1", "u2", "a1"})
+			}
+			v := strconv.Itoa(r.Intn(1 << 30))
+			if r.Intn(4) == 0 {
+				v = pick(big)
+			}
+			add(Item{"acc", a, meta, v})
 		}
 		if r.Intn(2) == 0 {
 			add(Item{"junk20", "", "", "x"})
@@ -38,13 +51,14 @@ func randScenario(r *rand.Rand) *Scenario {
 		}
 	case "container":
 		add(Item{"nnsroot", "", "", "container"}, Item{"nmhash", "", "", "hn"}, Item{"blhash", "", "", "hb"}, Item{"idhash", "", "", "hi"}, Item{"nnshash", "", "", "hx"})
-		for _, c := range uCids {
+		ncid := []int{0, 4, len(uCids)}[r.Intn(3)] // stored size: number of containers
+		for _, c := range uCids[:ncid] {
 			switch r.Intn(4) {
 			case 0:
 			case 1:
 				add(Item{"del", c, "", ""})
 			default:
-				o := cidOwner[c]
+				o := ownerOfCid(c)
 				add(Item{"cnr", c, "", o}, Item{"own", o, c, c})
 				if r.Intn(2) == 0 {
 					add(Item{"eacl", c, "", "e" + n(9)})
@@ -63,11 +77,13 @@ func randScenario(r *rand.Rand) *Scenario {
 			add(Item{"junk32", "", "", "x"})
 		}
 	case "netmap":
-		cnt := 1 + r.Intn(5)
-		add(Item{"snapcount", "", "", strconv.Itoa(cnt)}, Item{"snapcur", "", "", n(cnt)}, Item{"epoch", "", "", n(40)}, Item{"block", "", "", n(40)})
+		// stored parameters: snapshot count below / at / above the default of 10, ring position anywhere, all slots filled
+		cnt := []int{1, 3, 10, 12, 15, 1 + r.Intn(15)}[r.Intn(6)]
+		fill := []int{1, 1, 1, 2}[r.Intn(4)] // every node in every slot (3 of 4 scenarios) or a random half
+		add(Item{"snapcount", "", "", strconv.Itoa(cnt)}, Item{"snapcur", "", "", n(cnt)}, Item{"epoch", "", "", strconv.Itoa(15 + r.Intn(25))}, Item{"block", "", "", n(40)})
 		for i := 0; i < cnt; i++ {
 			for _, kk := range uNodes {
-				if r.Intn(2) == 0 {
+				if r.Intn(fill) == 0 {
 					if era < 16 {
 						add(Item{"osnap", strconv.Itoa(i), kk, ""})
 					} else {
@@ -147,14 +163,18 @@ func randScenario(r *rand.Rand) *Scenario {
 				supply++
 			}
 		}
-		for _, nm := range []string{"a.neofs", "b.neofs", "site.org"} {
+		for _, nm := range []string{"a.neofs", "b.neofs", "c.neofs", "d.neofs", "site.org", "e.org", "f.org"} {
 			if r.Intn(3) > 0 {
 				o := pick([]string{"u1", "u2", "u3"})
 				add(Item{"name", nm, "owner", o}, Item{"name", nm, "exp", "far"}, Item{"name", nm, "admin", pick([]string{"nil", "u2"})}, Item{"acctok", o, nm, nm})
 				own[o]++
 				supply++
-				for i := 0; i < r.Intn(3); i++ {
+				nrec := []int{0, 1, 3, 16}[r.Intn(4)] // stored size: records of one type (16 = the maximum)
+				for i := 0; i < nrec; i++ {
 					add(Item{"rec16", nm, strconv.Itoa(i), "t" + n(99)})
+				}
+				if r.Intn(3) == 0 {
+					add(Item{"rec1", nm, "0", "1.2.3." + n(200)})
 				}
 			}
 		}
